@@ -188,7 +188,7 @@ func scenarios(thorough bool) []runner.Scenario {
 func main() {
 	xlog.ReplaceGlobal(xlog.New(xlog.NewNopCore()))
 	if runner.IsWorker() {
-		runner.RunWorker(append(scenarios(false), scenarios(true)...))
+		runner.RunWorker(append(append(scenarios(false), scenarios(true)...), append(adapterScenarios(false), adapterScenarios(true)...)...))
 	}
 	rep := report.New("C01", "exploration")
 	rep.Rule = "every schedule within the deviation bound (preemptions + non-default successor choices) of publisher / joiner (attach, detach) / delivery goroutines on the real media layer; distinct = distinct (scenario, records of A and B) outcomes"
@@ -197,7 +197,6 @@ func main() {
 	if rep.Thorough() {
 		runner.FineP = 2
 	}
-	runner.Run(rep, scenarios(rep.Thorough()))
-	adapters(rep)
+	runner.Run(rep, append(scenarios(rep.Thorough()), adapterScenarios(rep.Thorough())...))
 	rep.Finish()
 }
